@@ -60,7 +60,16 @@ STEPS = [("d", n, v) for n in DEF_NAMES for v in VALUES] + \
 # the name position, values that start with a reference
 EXTRA_STEPS = [("d", "$b", "x"), ("d", "${a}", "y"), ("d", "$$a", "x"),
                ("d", "a", "$b y"), ("d", "b", "${a}  z"), ("d", "c", ""),
-               ("d", "A", "$c"), ("d", "c", "$c tail"), ("u", "{c}x")]
+               ("d", "A", "$c"), ("d", "c", "$c tail"), ("u", "{c}x"),
+               # non-ASCII letters next to / inside names: U+212A, U+017F,
+               # U+0130 and U+0131 case-fold into ASCII letters, the rest
+               # are letters for Unicode-aware patterns only; none of them
+               # is a name character
+               ("d", "a\u212a", "x"), ("d", "\u017f", "x"),
+               ("d", "b\u0130", "y"), ("d", "a\xe9", "x"),
+               ("u", "a\u212a"), ("u", "{a\u017f}"), ("u", "b\u0131 t"),
+               ("u", "a\xe9"), ("u", "\u212a"), ("d", "a", "$b\u017f"),
+               ("d", "\u212a", "x"), ("u", "k")]
 BOUND = {"quick": 2, "thorough": 3}
 RANDOM = {"quick": 4000, "thorough": 100000}
 
